@@ -340,9 +340,20 @@ func (p *{{$TypeName}}) Write(oprot thrift.TProtocol) (err error) {
 	{{- end}}
 	{{- if eq .Category "union"}}
 	var c int
+	{{- if Features.KeepUnknownFields}}
+	// a member that this version does not know counts as the one set member
+	c = p.CountSetFields{{$TypeName}}()
+	if len(p._unknownFields) > 0 {
+		c++
+	}
+	if c != 1 {
+		goto CountSetFieldsError
+	}
+	{{- else}}
 	if c = p.CountSetFields{{$TypeName}}(); c != 1 {
 		goto CountSetFieldsError
 	}
+	{{- end}}
 	{{- end}}
 	if err = oprot.WriteStructBegin("{{.Name}}"); err != nil {
 		goto WriteStructBeginError
